@@ -1,6 +1,7 @@
 """C10 - listed schedules decode exactly; a created schedule reads back unchanged."""
 
 import asyncio
+from datetime import timedelta
 from .. import env, gen, tcpwork
 from ..fakes import tcp_device as td
 from ..prop import Prop
@@ -154,6 +155,23 @@ class C10(Prop):
                             continue
                         self._judge_set(acc, again.schedules, recs, zz, f"direct parse right after the same reply was parsed in {zone if zz == z2 else z2}")
                     clock.set_zone(zone)
+                if k == 1 and zone in clock.TWINS:
+                    # the twin of this zone (identical abbreviations and offsets today, another history) and records from the years in
+                    # which the two disagreed: listed here, then there, then here again
+                    z2, old_instants = clock.TWINS[zone]
+                    old = [(7 + n_, 2 << (n_ % 7), e_, e_ + 5_400) for n_, e_ in enumerate(old_instants)]
+                    old_reply = replies.schedules([replies.schedule_record(s, m, a, b) for s, m, a, b in old])
+                    for zz in (zone, z2, zone):
+                        clock.set_zone(zz)
+                        acc.ev(len(old))
+                        acc.count("old_records_listed_under_a_zone_and_its_twin")
+                        try:
+                            got_old = self.messages.SwitcherGetSchedulesResponse(old_reply)
+                        except Exception as exc:
+                            acc.violation(f"parse-raised:{type(exc).__name__}", f"reply with old records in {zz} raised {type(exc).__name__}: {exc}", {"records": old})
+                            continue
+                        self._judge_set(acc, got_old.schedules, old, zz, f"records from years in which {zone} and {z2} disagreed, listed under {zz}")
+                    clock.set_zone(zone)
                 # copies of what was parsed say the same as the originals
                 import copy
                 import pickle
@@ -265,11 +283,21 @@ class C10(Prop):
                     sm, em = r.randrange(1440), r.randrange(1440)
                     if k == 0:
                         sm, em = i % 1440, (i * 7 + 5) % 1440
+                    one_time = False
+                    if k == 3:
+                        # tomorrow's clock skips an hour: a one-time schedule for a time of day that exists today and not tomorrow
+                        tomorrow = today + timedelta(days=1)
+                        skipped = [m_ for m_ in range(0, 1440, 15) if not clock.epochs_of(zone, tomorrow, m_ // 60, m_ % 60)]
+                        if skipped:
+                            sm = skipped[i % len(skipped)]
+                            em = (sm + 60) % 1440
+                            one_time = True
+                            acc.count("one_time_schedules_for_a_time_tomorrow_skips")
                     start, end = f"{sm // 60:02d}:{sm % 60:02d}", f"{em // 60:02d}:{em % 60:02d}"
                     if not clock.epochs_of(zone, today, sm // 60, sm % 60) or not clock.epochs_of(zone, today, em // 60, em % 60):
                         acc.skip_unspecified()
                         continue
-                    mask = EVEN_MASKS[(i * 4 + k) % 128]
+                    mask = 0 if one_time else EVEN_MASKS[(i * 4 + k) % 128]
                     days = sorted(days_of(mask))
                     rec = await cl.run("create_schedule", {"start": start, "end": end, "days": days})
                     acc.ev()
